@@ -316,6 +316,10 @@ impl<const H: usize> Writer<H> {
 
         self.sync()?;
 
+        // Move the file cursor back as well: the next append must land at the truncated offset,
+        // not after the discarded bytes
+        self.writer.seek(SeekFrom::Start(offset))?;
+
         self.flushed_offset.set(offset);
         self.write_offset = offset;
 
